@@ -2,8 +2,8 @@
 
 MC   : MC_SymCtx — the context machine (reset on a version marker, replace, append, import resolution
        against a catalogue) keeps the system prefix, never renumbers on append, forgets on reset.
-GEN  : every stream of up to N items over {version marker, 27 replacing tables (9 import lists x 3 symbol
-       lists), 2 appending tables, 8 symbol IDs} for each of 5 catalogues (history in state, tlc -dump),
+GEN  : every stream of up to N items over {version marker, 45 replacing tables (9 import lists x 5 symbol
+       lists, two of them with elements that are not strings), 4 appending tables, 9 symbol IDs} for each of 5 catalogues (history in state, tlc -dump),
        plus seeded longer streams; each rendered in binary (spec encoder under choice streams) and text.
        Expected: the specification's decoder on the rendered bytes, which must agree with the machine.
 EXEC : real Reader with a real Catalog; each user value shows its symbol as annotation, field name, value.
@@ -18,7 +18,25 @@ import time
 from vlib import core, rt
 
 PROP = "C10"
-NITEMS = 1 + 27 + 2 + 8
+NTABLES = 1 + 45 + 4          # version marker, 9 import lists x 5 symbol lists replacing, 4 appending
+NITEMS = NTABLES + 9            # + 9 symbol IDs
+
+
+GAP_SYMPTOM = "a symbol ID whose slot has no text (non-string element of a symbols list) is shown as the empty symbol ''"
+
+
+def gapnorm(x):
+    """The forest with every token that is either 'ID without text' or 'empty text' replaced by one marker: two
+    forests equal under it differ only in how a slot without text is shown."""
+    if isinstance(x, dict):
+        if set(x.keys()) == {"k", "sid", "text"}:
+            if x["k"] == "sid" or (x["k"] == "text" and x["text"] == []):
+                return "GAP"
+            return dict(k=x["k"], text=x["text"])
+        return {k: gapnorm(v) for k, v in x.items()}
+    if isinstance(x, list):
+        return [gapnorm(v) for v in x]
+    return x
 
 
 def judge(wd, cases, tag="c10"):
@@ -30,7 +48,10 @@ def judge(wd, cases, tag="c10"):
         vs, obs = rt.exec_and_judge(wd, [dict(forest=c["forest"], bytes=c["bytes"], mode=c["fmt"], cat=c["cat"]) for c in acc],
                                     sub="read", tag=tag + "a")
         for c, v, o in zip(acc, vs, obs):
-            out.append((c, None if v["c01"] == "ok" else dict(symptom=v["c01"], rerr=o.get("rerr", "")[:200], back=o.get("back"))))
+            sym = v["c01"]
+            if sym == "values differ" and gapnorm(c["forest"]) == gapnorm(o.get("back")):
+                sym = GAP_SYMPTOM
+            out.append((c, None if sym == "ok" else dict(symptom=sym, rerr=o.get("rerr", "")[:200], back=o.get("back"))))
     if rej:
         d = wd.sub(tag + "r")
         core.write_ndjson(os.path.join(d, "in.ndjson"), [dict(bytes=c["bytes"], mode=c["fmt"], cat=c["cat"]) for c in rej])
@@ -77,7 +98,7 @@ def run(tier):
         for _ in range(nlong):
             n = rnd.randint(3, 8)
             # bias towards tables followed by values
-            h = tuple(rnd.choice([rnd.randint(1, 30), rnd.randint(31, NITEMS), rnd.randint(31, NITEMS)]) for _ in range(n))
+            h = tuple(rnd.choice([rnd.randint(1, NTABLES), rnd.randint(NTABLES + 1, NITEMS), rnd.randint(NTABLES + 1, NITEMS)]) for _ in range(n))
             leaves.append((rnd.randint(1, 5), h))
         nsh = 12
         shards = core.shard(leaves, nsh)
